@@ -1,8 +1,10 @@
-"""C13 finding (not fixed): ComputedTabularDataReader.read() (columns=None) over a DataFrameReader writes its column INTO
-the caller's DataFrame.
+"""F27 (C13, fixed in /repo af0267a): ComputedTabularDataReader.read() (columns=None) over a DataFrameReader wrote its column
+INTO the caller's DataFrame.
 
-DataFrameReader.read(columns=None) returns self.df itself and ComputedTabularDataReader.read then does
-`df[self.column] = self.func(df)` on it.  After one read() of all columns
+Before the repair:
+
+DataFrameReader.read(columns=None) returns self.df itself and ComputedTabularDataReader.read then did
+`df[self.column] = self.func(df)` on it (now: `df = df.assign(...)`, a new frame).  After one read() of all columns
 
 * the DataFrame the caller handed to DataFrameReader has an extra column,
 * get_column_names() of the computed reader lists its column twice,
@@ -12,8 +14,8 @@ DataFrameReader.read(columns=None) returns self.df itself and ComputedTabularDat
 So what a reader delivers depends on what it was asked before; "the requested columns in the requested order" fails for
 the second request.  (A chunked pass does not do this: iloc slices are copies.)
 
-Exit status 1 while the defect is present, 0 when the second request is answered like the first.
-Run: PYTHONPATH=/repo /venv/bin/python repo_fixes/C13-finding-computed-writes-into-frame.py"""
+Exit status 1 when the defect is present (af0267a reverted), 0 when the second request is answered like the first.
+Run: PYTHONPATH=/repo /venv/bin/python repo_fixes/F27-repro-computed-writes-into-frame.py"""
 import sys
 import warnings
 
